@@ -262,7 +262,8 @@ def kf_text(pid, kid):
 
 
 def still_fails(prop, case_line, want_kind):
-    impl, model, _ = core.run_both(prop.id, [case_line], prop.impl_argv, prop.model_argv, tag='shrink')
+    impl, model, _ = core.run_both(prop.id, [case_line], prop.impl_argv, prop.model_argv, tag='shrink',
+                                    supervise=getattr(prop, 'supervise', None))
     return evaluate_single(prop, case_line, impl[0], model[0])
 
 
@@ -293,7 +294,9 @@ def shrink_violation(prop, viol, rounds=12):
             break
         if not cands:
             break
-        impl, model, _ = core.run_both(prop.id, cands, prop.impl_argv, prop.model_argv, tag='shrink', timeout=40)
+        sup = getattr(prop, 'supervise', None)
+        impl, model, _ = core.run_both(prop.id, cands, prop.impl_argv, prop.model_argv, tag='shrink', timeout=40,
+                                       supervise=min(sup, 1.5) if sup else None)
         nxt = None
         for c, il, ml in zip(cands, impl, model):
             fs = evaluate_single(prop, c, il, ml)
